@@ -128,7 +128,22 @@ def rule_multibyte(facts):
     # loop bound 0..9
     rng = [tm.of_operand(s.rv.ops[1]) for blk in b.blocks for s in blk.stmts if s.k == "assign" and s.rv.k == "aggregate"
            and s.rv.agg == "adt" and s.rv.adt_name.endswith("Range")]
-    if rng == [("const", 9)]:
+    # ... or a `while shift < 63 { .. shift += 7 }` loop: the induction variable's trip count
+    ind = None      # (init, step, bound) of a counting loop test `phi(init, x + step) < bound`
+    gsm, _tmm = pat.guards(b)
+    for (bbm, tmt, zm, nzm) in gsm:
+        sm = pat.cmp_sides(tmt)
+        if not (sm and sm[0] == "Lt" and sm[2][0] == "const" and sm[1][0] == "phi" and c.loop_blocks_of(bbm)):
+            continue
+        alts = sm[1][1] if (len(sm[1]) == 2 and isinstance(sm[1][1], tuple) and sm[1][1] and not isinstance(sm[1][1][0], str)) else ()
+        init = [a for a in alts if a[0] == "const"]
+        step = [a for a in alts if a[0] == "Add" and len(a) > 2 and a[2][0] == "const" and a[1][0] in ("loopvar", "phi")]
+        if len(init) == 1 and len(step) == 1 and step[0][2][1] > 0:
+            ind = (init[0][1], step[0][2][1], sm[2][1])
+    trips = None
+    if not rng and ind is not None:
+        trips = max(0, -(-(ind[2] - ind[0]) // ind[1]))
+    if rng == [("const", 9)] or (trips == 9 and ind[0] == 0 and ind[1] == 7):
         r.ok("constant", {"max bytes": 9})
     else:
         r.bad("multibyte|bound", "the byte limit of a multi-byte integer is %s, the format says 9" % [flow.show(x) for x in rng], pat.where(b))
@@ -158,6 +173,8 @@ def rule_multibyte(facts):
                                 return v
                             if pat.has_call(z, "::next"):
                                 return i
+                            if z[0] == "phi" and ind is not None and ind[0] == 0 and not pat.has_call(z, "read_u8"):
+                                return ind[1] * i       # the running shift amount of a `shift += 7` loop, in round i
                             raise pat.NotEvaluable(z)
                         got = pat.eval_term(q, leaf)
                         if got != ((v & 0x7F) << (7 * i)) & ((1 << 64) - 1):
@@ -729,6 +746,8 @@ def rule_rejections(facts):
                     why = "reserved bits (C18.R3)"
                 elif t[0] == "discr" and pat.has_call(t, "::next") and fn.endswith("get_multibyte"):
                     why = "more than nine bytes in a multi-byte integer"
+                elif fn.endswith("get_multibyte") and s_ and not any(q[0] in ("call", "arg", "field") for q in flow.term_atoms(t)):
+                    why = "more than nine bytes in a multi-byte integer (the loop counter ran out; the count itself is C03.R2's)"
                 elif s_ and pat.has_call(t, "get_multibyte") and pat.has_arg(t, "header_size") and s_[0] in ("Gt", "Le"):
                     why = "filter property size larger than the header"
                 elif s_ and pat.has_call(t, "Vec::len") and pat.has_field(t, "props") and s_[2] == ("const", 1):
